@@ -14,9 +14,14 @@ import MetadorModel.Model.Codec
   decorators `add_const_fields`, `override`, `make_mandatory`), `build` = the rules of
   `SchemaMagic.__new__` (`schema/core.py:118-174`) and of the decorators
   (`schema/decorators.py`) that refuse a class definition.
-* `checkTypes` mirrors `schema/core.py:367-389` (`check_types`: bases first, then the schemas
+* `checkTypes` mirrors `schema/core.py:368-395` (`check_types`: bases first, then the schemas
   nested in fields, then `check_allowed_types` (`partial.py:60-116`) and `check_overrides`
-  (`core.py:441-481`, `detect_field_overrides` `:433-438`).
+  (`core.py:452-492`, `detect_field_overrides` `:445-449`); `loadPlugin` adds what the top-level
+  call does since `fix: check_types forgets all marks set during a refused walk`: every mark set
+  during a call that raises is cleared again.
+* `constOk` mirrors `add_const_fields` (`schema/decorators.py:73-111`), since `fix: add_const_fields
+  does not treat collection-valued fields as enum/literal specialisation` with the test
+  `field_def.shape == SHAPE_SINGLETON` (`singletonTy`).
 
 Inside a `ClassDef` a nested schema is referred to by name only: `Ty.model name .allow [] []`.
 Import-free apart from `Model.Codec`.
@@ -311,13 +316,15 @@ def baseConsts (T : Table) (c : ClassDef) : List (Str × Json) :=
   | some p => allConsts T p
   | none => []
 
-/-- pydantic's `ModelField.type_`: the innermost item type -/
-def innerTy : Ty → Ty
-  | .opt t => innerTy t
-  | .list t => innerTy t
-  | .set t => innerTy t
-  | .ann t => innerTy t
-  | t => t
+/-- pydantic's `ModelField.type_` for a field with `shape == SHAPE_SINGLETON` (`Optional` and
+`Annotated` are transparent for both); `none` for a collection-valued field (`List[..]`, `Set[..]`,
+also below `Optional` / `Annotated`: `SHAPE_LIST` / `SHAPE_SET`, `type_` is the *item* type there) -/
+def singletonTy : Ty → Option Ty
+  | .opt t => singletonTy t
+  | .ann t => singletonTy t
+  | .list _ => none
+  | .set _ => none
+  | t => some t
 
 def jsonLit? : Json → Option Lit
   | .str s => some (.str s)
@@ -325,24 +332,26 @@ def jsonLit? : Json → Option Lit
   | .bool b => some (.bool b)
   | _ => none
 
-/-- one constant of `add_const_fields` on a class whose (non-constant) hints are `hints`,
-whose inherited constants are `bconsts` -/
+/-- one constant of `add_const_fields(consts, override=c.constOverride)` on a class whose
+(non-constant) hints are `hints`, whose inherited constants are `bconsts`
+(`decorators.py:73-111`) -/
 def constOk (T : Table) (c : ClassDef) (hints : List (Str × Ty)) (bconsts : List (Str × Json))
     (parentForbids : Bool) (kv : Str × Json) : Except Refusal Unit :=
   let k := kv.1
   match getHint k hints with
   | some t =>
-    -- turning a field into a constant: silently allowed for a Literal member, else needs override=True
-    match innerTy t with
-    | .lit vs =>
+    -- turning a field into a constant: silently allowed for a member of the Literal of a *plain*
+    -- (singleton) field - checked also when override=True -, anything else needs override=True
+    match singletonTy t with
+    | some (.lit vs) =>
       match jsonLit? kv.2 with
       | some l => if le T (.oneOf [some l]) (.oneOf (vs.map some)) then .ok () else .error .typeError
       | none => .error .typeError
     | _ => if c.constOverride then .ok () else .error .valueError
   | none =>
     if hasKey k bconsts then
-      -- replacing an inherited constant needs override=True (the harness, like `ld_decorator`, passes it)
-      .ok ()
+      -- an inherited constant is a field (`Optional[Any]`) too: replacing it needs override=True
+      if c.constOverride then .ok () else .error .valueError
     else if parentForbids then .error .typeError  -- new field below a parent that forbids extras
     else .ok ()
 
@@ -405,7 +414,8 @@ def unionArity : Ty → Nat
   | _ => 0
 
 mutual
-/-- `_check_type_mergeable` (`partial.py:60-116`) -/
+/-- `_check_type_mergeable` (`partial.py:60-116`); structural recursion (the arguments of
+`Optional[t]` other than `None` are looked at in place), so that concrete tables evaluate -/
 def mergeable (allowNone : Bool) : Ty → Bool
   | .list t => mergeable false t
   | .set t => mergeable false t
@@ -417,15 +427,19 @@ def mergeable (allowNone : Bool) : Ty → Bool
       let primUnion := !(args.any isListOrSet)
       let optSetOrList := unionArity (.opt t) == 2
       if !(primUnion || optSetOrList) then false
-      else mergeableArgs t
+      else
+        -- arguments of `Optional[t]` other than `None`
+        match t with
+        | .union ts => mergeableAll ts
+        | .list t' => mergeable false t'
+        | .set t' => mergeable false t'
+        | .ann _ => true
+        | .opt _ => false
+        | _ => true
   | .union ts =>
     let primUnion := !(ts.any isListOrSet)
     if !primUnion then false else mergeableAll ts
   | _ => true
-/-- arguments of `Optional[t]` other than `None` -/
-def mergeableArgs : Ty → Bool
-  | .union ts => mergeableAll ts
-  | t => mergeable false t
 def mergeableAll : List Ty → Bool
   | [] => true
   | t :: ts => mergeable false t && mergeableAll ts
@@ -486,8 +500,10 @@ def fieldSchemasF (T : Table) : Nat → Str → List Str
          | some p => fieldSchemasF T fuel p
          | none => [])
 
-/-- `check_types` as a depth-first walk with the `__types_checked__` marks (`seen`).
-Returns the marks and the first refusal. -/
+/-- `check_types` as a depth-first walk with the `__types_checked__` marks (`seen`): one call
+including the calls it makes for the dependencies (`core.py:368-389`; the `except` of an inner
+level re-raises unchanged). Returns the marks and the first refusal; the mark of a class is set
+before the class is examined (`core.py:374`). -/
 def checkTypesF (T : Table) : Nat → List Str → Str → List Str × Except Refusal Unit
   | 0, seen, _ => (seen, .ok ())
   | fuel + 1, seen, n =>
@@ -516,10 +532,15 @@ def checkTypes (T : Table) (n : Str) : Except Refusal Unit :=
 
 /-- One plugin load (`PGSchema.check_plugin`, `pg.py:158`): `check_types(n)` *without* `recheck`,
 i.e. starting from the `__types_checked__` marks that the earlier loads of the process left
-behind (`core.py:369-371`: a marked class returns at once; the mark is set before the class is
-examined and stays when the examination raises). Returns the marks afterwards and the outcome. -/
+behind (`core.py:369-371`: a marked class returns at once). The top-level call records every class
+it marks (`_walk`) and, when it raises, clears all of them again (`core.py:390-395`, since
+`fix: check_types forgets all marks set during a refused walk`): after a refused load the marks are
+those from before the load. Returns the marks afterwards and the outcome. -/
 def loadPlugin (T : Table) (marks : List Str) (n : Str) : List Str × Except Refusal Unit :=
-  checkTypesF T (2 * T.length + 2) marks n
+  let r := checkTypesF T (2 * T.length + 2) marks n
+  match r.2 with
+  | .error e => (marks, .error e)
+  | .ok () => (r.1, .ok ())
 
 /-- plugin loads one after the other: final marks and the outcome of every load -/
 def loadAll (T : Table) : List Str → List Str → List Str × List (Except Refusal Unit)
